@@ -187,7 +187,9 @@ Definition step_class (st : pstate) (neg : bool) (items : list citem) (cs : csta
     match cs with
     | CStart => Some (mkP (MClass neg items (CHave 45)) (p_cur st) (p_stack st))
     | CHave a => Some (mkP (MClass neg items (CDash a)) (p_cur st) (p_stack st))
-    | _ => None
+    | CIdle => Some (mkP (MClass neg (items ++ [ILit 45]) CIdle) (p_cur st) (p_stack st))
+                      (* after a range or a class escape a dash is literal ([a-c-e], [\w-]); re rejects [\w-a], we do not *)
+    | CDash _ => None
     end
   else if c =? 91 then None
   else class_literal st neg items cs c.
